@@ -31,6 +31,9 @@ func sm4Kernels() []sm4Kernel {
 	}
 }
 
+// key buffers reused across keys, per path (see the public-API section of runC05)
+var c05ReuseBuf [2][]byte
+
 func runC05(c *Ctx) {
 	debug.SetPanicOnFault(true) // a fault inside an assembly routine becomes a recoverable panic, reported as "panic"
 	c.res.Rule = "per (key, blocks): portable cryptoBlock and cryptoBlockX2, expandKey vs expandKeyAsm, asm kernels X1/X2/X4/X8/X16 with distinct blocks in every lane, enc and dec, in place and disjoint (three-way: CPU, interpreted listing, specification), public NewCipher/Encrypt/Decrypt with the accelerated path on and off, key slice overwritten after construction, key lengths 0..40; class = (path, direction, aliasing, key pattern); non-trivial = every class except the first uniformly random one"
@@ -153,6 +156,24 @@ func runC05(c *Ctx) {
 			sm4.VerifSetCandoAsm(accel)
 			kcopy := append([]byte(nil), key...)
 			blk, err := sm4.NewCipher(kcopy)
+			// the same key BUFFER refilled for successive keys: a constructor that keeps a reference to the caller's
+			// slice (or a cache compared against it) hands out the previous key's schedule here (seeded C05-c)
+			ri := 0
+			if accel {
+				ri = 1
+			}
+			if c05ReuseBuf[ri] == nil {
+				c05ReuseBuf[ri] = make([]byte, len(key))
+			}
+			if len(c05ReuseBuf[ri]) == len(key) {
+				copy(c05ReuseBuf[ri], key)
+				if blk2, err2 := sm4.NewCipher(c05ReuseBuf[ri]); err2 == nil {
+					e3, d3, _ := sm4.VerifRoundKeys(blk2)
+					cl2 := fmt.Sprintf("api/accel=%v/reused-key-buffer", accel)
+					c.Case("sm4.api", cl2, false, "sm4.expand "+keyHex)
+					c.Check3("sm4.api", cl2, "sm4.expand "+keyHex, "sm4.expand.spec "+keyHex, "ok "+wordsHex(e3[:])+" "+wordsHex(d3[:]))
+				}
+			}
 			sm4.VerifSetCandoAsm(asmOK)
 			if err != nil {
 				c.Disagree(Disagreement{Kind: "impl!=spec", Class: "newcipher-error", Request: "sm4.expand " + keyHex, Impl: "err", Spec: "ok", Stream: "sm4.api"})
